@@ -125,6 +125,7 @@ func buildVC(prog *Program, fi *FuncInfo) (vc *VC, err error) {
 		}
 	}
 	vc.assume(st, app(SBool, ">=", vc.alloc(st), IntLit(1)))
+	f.assumeTypeInvs(st, fi.Decl.Pos())
 	f.old = st.clone()
 	if sp != nil {
 		sf := &Frame{vc: vc, pk: sp.Pkg, spec: true, old: f.old, specEnv: f.specEnv, tsub: f.tsub, bound: map[types.Object]Term{}}
